@@ -4,6 +4,26 @@ ROOT = os.path.dirname(os.path.dirname(os.path.abspath(__file__)))
 ALL = ["C%02d" % i for i in range(1, 21)]
 
 CHECKS = {
+ "C02": dict(
+   technique="Lean 4 proof over faithful models of the in-band marker codec, tab expansion, final-newline correction and pragma re-insertion + exhaustive "
+             "function-level correspondence with the real (private) functions + document-level identity oracle on registered strata with footprint-identified findings",
+   design_ref="DESIGN.md §6 C02, §5.1, §5.2, §4 (strata)",
+   text="Theorems over Verif.Model.Codec / Verif.Model.Tabs (index loops of parser_helper.py mirrored, defects included): remove_encode and resolve_encode (remove_all_from_text / "
+        "resolve_all_from_text invert the encoding of every marker-free piece list: literals, backslash escapes, replacements, replaced-with-nothing, nested replacements), "
+        "escape_roundtrip(+_resolve) for escape_special_characters, and the negative results that fix the domain: codec_collision_x05(_raises), codec_collision_empty_replacement, "
+        "escape_roundtrip_excluded, resolveBackspaces_defects (hang at index 0, resume one too far), sentinel_collision / stripSentinels_id (U+00FE, U+8268, U+8269 are deleted, nothing else); "
+        "detabify_eq_detab (the section loop of detabify_string = one-pass reference), detab_noTab, detab_id_of_noTab, detab_length_ge, colAfter_mono/_strict, tab_stop; final_newline_rule; "
+        "pragma_reinsert(_doc) with its two excluded points proved real. Tie: every modelled function vs the real function on all 137 257 strings of length <= 6 over "
+        "{\\b,\\a,U+0005,U+0003,\\,x,&} (each real call under a CPU timer; 5.9 M evaluations, hangs and ValueErrors included), 37 k piece lists encoded by the real encoders, tab / nth-occurrence / "
+        "final-newline / pragma functions on their own alphabets, sentinel constants by reflection. Oracle = the property itself: TransformToMarkdown().transform(tokens) == source on the registered "
+        "strata (one-line documents over all 18 prefixes x 35 bodies; all 41 472 two-line core documents; the repo's 4 945 test documents; core documents wrapped in quote / list; Unicode sweep of 49 code "
+        "points at every position of every body; inline break/link templates; pragma insertion at every line).",
+   note="PARTIAL: the ~5 000-line per-token regenerator (transform_containers.py, transform_list_block.py, the __rehydrate_* handlers) is NOT modelled; for it the claim is exploration of the registered "
+        "strata only, not proof. Registered = core stratum (DESIGN §4); two-line documents over tab / nested prefixes, wrapped two-line documents and the wrapped corpus fail in many more families on the "
+        "pinned tree (measured: 4 % / 1.1 % / 5 % of documents unmatched) and run only under VERIF_FRONTIER=1, outside the claim. Proof part holds on MarkerFree / escOK / tab-free-pragma domains as stated. "
+        "Trusted: Lean kernel; harness (CPU timer 20 ms = non-termination, re-checked at 1.5 s); footprint predicates tools/footprints_c02.py (each reconstructs the expected wrong output and compares for equality). "
+        "Findings on the pinned tree: F-THORN, F-X05, F-MARKER-RAW, F-CHARREF-MARKER, F-FENCE-TRAILWS, F-SETEXT-TRAILWS, F-BS, F-LRD-TRAIL, F-BQLIST-OUTDENT, F-SUBLIST-MARKER, F-BQTAB-BLANK, "
+        "F-PRAGMA-TAB, F-PRAGMA-FINALNL, F-RT-DEEPNEST-1. Documents that do not tokenize are C01's (skipped, counted)."),
  "C04": dict(
    technique="Lean 4 proof of a sound-and-complete stream monitor + the compiled monitor run on pymarkdown's real, un-abstracted token streams + independent direct oracle + plug-in stream comparison",
    design_ref="DESIGN.md §6 C04",
@@ -32,6 +52,41 @@ CHECKS = {
         "of the document pool under default, all-enabled and each-rule-alone.",
    note="Partial: 46 rule bodies explored, not proved. Trusted: Lean kernel, harness, probe-rule generator. Rule crashes on the pinned tree are recorded by call "
         "site (rule, exception type, function) in known_findings.json."),
+ "C08": dict(
+   technique="Lean 4 proof over the fix-mode model (line pass) + fix-mode correspondence + fingerprint differential through the independent LeanMark renderer",
+   design_ref="DESIGN.md §6 C08",
+   text="fix_writes_every_line_once and linePass_id over Verif.Model.FixSched: the line phase of a fix pass writes every line exactly once and, when no rule rewrites, "
+        "reproduces the document character for character; the repaired defect F-ENG (context re-binding truncating the file) is kept as a model with pinned_fix_line_loss. "
+        "Tie: probe fixer rules through the real `fix` vs the model (bytes written back, file operations, call log). Oracle: the reference rendering (LeanMark, Lean) of the "
+        "document before and after the real `fix` has the same fingerprint (block skeleton + whitespace-normalised text, modulo the documented normalisations), under the default "
+        "rule set and each fix-capable default rule alone.",
+   note="Partial: the 24 token-level fixers and the Markdown regenerator are not modelled — explored through the fingerprint differential only. Meaning-changing fixes of the "
+        "pinned tree are listed input by input in findings/C08.inputs.json (F-FIX-MEANING). Documents outside LeanMark's alphabet are skipped (counted)."),
+ "C09": dict(
+   technique="Lean 4 proof over the fix-mode level scheduler + fix-mode correspondence + convergence sweep on the real rules",
+   design_ref="DESIGN.md §6 C09",
+   text="levels_strictly_increase and passes_bounded (the scheduler terminates in at most #levels passes, for every pass function), fix_fixed_point (one run leaves no fix-capable "
+        "rule triggering, under H1 own-level clean / H2 no lower-level trigger created / Hdet detection complete), fix_idempotent, and the same-level gap witness. The concrete "
+        "fixLoop is proved to be the abstract scheduler (fixLoop_eq_sched). Tie: probe fixers with chosen levels through the real `fix` vs the model (pass sequence, bytes, exit, "
+        "operations, call log). Oracle: fix(d); scan(fix d) shows no fix-capable failure; fix(fix d) changes nothing — default set and each fix-capable default rule alone.",
+   note="Partial: H1/H2/Hdet are hypotheses for the real fixers (explored). Non-converging inputs of the pinned tree are listed one by one in findings/C09.inputs.json (F-NONCONVERGE)."),
+ "C10": dict(
+   technique="Lean 4 proof over the fix-mode model (flags, file operations) + operation-log correspondence + per-file / multi-file oracle",
+   design_ref="DESIGN.md §6 C10",
+   text="overwrite_iff_flag (the target is written in a pass iff the pass completed and recorded a fix), untouched_if_no_record, temps_balanced, pass_ops, not_fixed_content_same "
+        "(not announced ⇒ byte-identical), result_fixed_iff, scan_ops_readonly. Tie: real file operations (audit hook), bytes, 'Fixed:' line and exit status of probe-fixer runs vs the model. "
+        "Oracle: per document bytes change ⇔ 'Fixed:' ⇔ exit FIXED and no fix-capable failure ⇒ untouched; subsets of files × {scan, scan-stdin, scan -l, fix} × both schemes with "
+        "directory and temp-directory snapshots.",
+   note="Partial: A-REC (a fix record implies different content) is explored, not proved; 10 listed inputs (F-FIXREPORT). Fixed: F-FIX-NORULES."),
+ "C15": dict(
+   technique="Lean 4 proof over the fix-mode fault model and a crash-point model of the write-back + fault enumeration on real runs + strace kill injection",
+   design_ref="DESIGN.md §6 C15",
+   text="fault_never_writes_target, fault_is_system_error, no_temp_left_partial with temp_leak_witness, early_fault_no_leak; rename_protocol_atomic vs copy_protocol_not_atomic / "
+        "copy_protocol_completes. Tie/oracle: an exception injected at the k-th invocation of each callback, a parser failure, an undecodable file, at every position of a 3-file run, "
+        "scan and fix, with and without --continue-on-error: exit status is the system error, the failing file is named, the other files are processed exactly as alone, every file is "
+        "afterwards original or completely fixed, no temporary file left; the real write-back is killed with strace at each copy syscall and the file found is compared with the model.",
+   note="category fault_enumeration would also fit; claimed as proof of the containment logic + enumeration. Partial: kernel behaviour between syscalls is not modelled. "
+        "Findings: F-TMP, F-DECODE, F-COPY, F-TOKERR-UNNAMED."),
  "C11": dict(
    technique="Lean 4 proof over a faithful pragma model + engine/recognition correspondence + insertion differential on real rules",
    design_ref="DESIGN.md §6 C11",
@@ -106,6 +161,25 @@ CHECKS = {
         "end-to-end runs (scan, fix, scan -l, list_path).",
    note="Trusted: Lean kernel; harness; modelled not verified: glob/fnmatch/os.path/os.walk (validated each run); POSIX, no symlinks, relative paths below cwd; "
         "Normalised/WF hypotheses as stated."),
+ "C20": dict(
+   technique="Lean 4 proof over a faithful front-matter model (parametric in the parser proper via the shift law) + extension-flag table regenerated from the AST of the source "
+             "(translator) + header-stage / handler-table correspondence + 64-subset inertness differential",
+   design_ref="DESIGN.md §6 C20, §2.2 ExtFlags, §8 F-FM",
+   text="Theorems over Verif.Model.FrontMatter for EVERY parser proper satisfying ShiftInvariant, every YAML oracle, both allow_blank_lines settings: fm_shift (valid block of k lines -> "
+        "front-matter token ++ shift_k(parse rest)), fm_token_only_valid (converse), fm_abandon_identity (+ syntactic corollaries: not a start / blank line / invalid YAML with equally "
+        "spelled fences -> exactly the plain parse), fm_disabled_identity, start_line_shape (start = `---` + trailing ASCII whitespace only), excluded points fm_eof_error/fm_eof_witness "
+        "(F-FM), fm_close_spelling_witness (F-FM-CLOSE), fm_yaml_raise. Over Verif.Gen.ExtFlags (regenerated every run): flags_guard (every extension hook site outside the extension "
+        "packages is dominated by its own flag or is a reviewed data-driven consumer), reviewed_pinned, wiring_straight/_complete, defaults, copies_only_in_props, every_flag_guards, "
+        "ext_chars_owned, handlers_off/_on, all_off_tables, emph_strike, handlers_depend_on. Tie: real flags and inline handler/emphasis tables for all 64 subsets == model tables; real "
+        "header stage (wrapped __process_front_matter_header_if_present: next line, line number, requeue, provider rest, token, exception) == model headerStage on the whole header-shape "
+        "product (start x body x close x rest x position x LF/CRLF x allow_blank_lines; YAML verdict from the real __validate_yaml), and end to end through the real parser. Oracle "
+        "(independent of the model): Python restatement of 'valid block' decides token++shift (tokens, HTML, regenerated Markdown) vs plain parse; inertness over 64 subsets x pool split "
+        "by trigger syntax: output depends only on S ∩ triggers(doc); a disabled extension leaves no artefact token; all-off == default == expected HTML on the repo's spec cases "
+        "(188 of them full of extension syntax).",
+   note="Partial for 'behaves as plain CommonMark' (reference = repo spec expectations until LeanMark) and for 'changes only documents containing the syntax' inside the shared passes "
+        "(explored on the finite pool, not proved). Trusted: Lean kernel; ext_flags.py (syntactic guard analysis; private helpers guarded via their call sites; asserts not counted); "
+        "PyYAML outside the model (verdict passed in); MainLoop abstraction (requeue+provider = concatenation, checked end to end); textual trigger predicates. "
+        "Findings: F-FM, F-FM-CLOSE, F-FM-YAML-TYPEERROR/-READER/-TESTHOOK, F-EA-IMG-ALT, F-HTML-LEADNL."),
 }
 
 def main():
